@@ -150,6 +150,12 @@ def _cat(n):
         # letters whose lower() / upper() / casefold() differ in length (U+0130, sharp s, a ligature) in free text and in a comment
         (f"\u0130stanbul stra\xdfe {n} \ufb01n", None),
         (f"@comment{{\u0130 \xdf \ufb01 {n}}}", ("comment", f"\u0130 \xdf \ufb01 {n}")),
+        # entry types spelled like words the implementation uses for itself
+        (f"@entry{{en{n}, a = {{1}}}}", ("entry", "entry", f"en{n}", (("a", "{1}"),))),
+        (f"@explicit_comment{{ex{n}}}\n@Block{{bl{n}, handle = 2}}", None) if False else (f"@explicit_comment{{ex{n}}}", ("entry", "explicit_comment", f"ex{n}", ())),
+        # a byte-order mark (U+FEFF: not white space) at the start of lines inside a value and a comment
+        (f"@misc{{fe{n}, t = {{a\n\ufeffb}}}}", ("entry", "misc", f"fe{n}", (("t", "{a\n\ufeffb}"),))),
+        (f"@comment{{\ufeff c{n}\n\ufeff d}}", ("comment", f"\ufeff c{n}\n\ufeff d")),
         # entry types that merely contain or begin with a keyword
         (f"@ReviewComment{{r{n}, a = {{1}}}}", ("entry", "reviewcomment", f"r{n}", (("a", "{1}"),))),
         (f"@Commentary {{y{n}, title = {{T}}}}", ("entry", "commentary", f"y{n}", (("title", "{T}"),))),  # (a biblatex type)
@@ -251,7 +257,7 @@ def shards(tier):
     out += [("L3", i) for i in range(NCAT)]
     out += [("L3pair", i) for i in range(NCAT)]
     out += [("L3remove", i) for i in range(NCAT)]
-    out += [("optimised", 0)]
+    out += [("optimised", 0), ("windows", 0)]
     out += [("L4", s) for s in seq_shards(spaces.SIGMA_DOC, 5 if tier == "quick" else 6)]
     out += [("big", n, v) for n in (bigdocs.SIZES_QUICK if tier == "quick" else bigdocs.SIZES_THOROUGH) for v in (0, 1)]
     return out
@@ -349,6 +355,35 @@ def check_doc(text, expected, acc, level):
     judge(text, expected, acc, level)
 
 
+def check_window_boundaries(acc):
+    """A block header lying across offset W (W = 4096 .. 2**20, the sizes a chunked scan would use), at every position
+    of the header: the text before is one long comment, the blocks after it are as written."""
+    for W in (4096, 8192, 65536, 1 << 20):
+        for k in range(0, 11):
+            for header, exp in (("@article{", ("entry", "article", "wk", (("t", "{v}"),))), ("@Book  {", ("entry", "book", "wk", (("t", "{v}"),)))):
+                pre = "% " + "x" * 77 + "\n"
+                n = (W - k - 1) // len(pre)
+                comment = pre * n
+                comment += "%" + "y" * (W - k - len(comment) - 2) + "\n"  # the header starts at offset W - k
+                text = comment + header + "wk, t = {v}}\n@misc{after, u = 7}\n"
+                case = {"window": W, "header_starts_before_the_boundary_by": k, "header": header}
+                acc.trace(2)
+                acc.case(nontrivial_key=("window", W, k, header))
+                assert text.index(header) == W - k
+                expected = [("implicit", comment.strip()), exp, ("entry", "misc", "after", (("u", "7"),))]
+                for route in ("split", "parse_string"):
+                    try:
+                        lib = Splitter(text).split() if route == "split" else bibtexparser.parse_string(text, parse_stack=[])
+                    except Exception as e:
+                        acc.exception(e, case, route, size=W)
+                        break
+                    obs = dialect.observed(lib)
+                    if obs != expected:
+                        i, what = _diff(expected, obs)
+                        acc.violation({"oracle": "blocks_as_written", "what": what, "level": "window boundary"}, {"case": case, "observed": [b[:3] for b in obs[:4]], "expected": [b[:3] for b in expected], "route": route}, size=W)
+                        break
+
+
 _OPT_SCRIPT = """
 import sys, json
 sys.path.insert(0, sys.argv[1])
@@ -407,6 +442,8 @@ def run_shard(shard, tier, acc):
     kind = shard[0]
     if kind == "optimised":
         return check_optimised_interpreter(acc)
+    if kind == "windows":
+        return check_window_boundaries(acc)
     if kind == "L1":
         for toks in seq_iter(spaces.SIGMA_VAL, shard[1]):
             v = "".join(toks)
@@ -518,6 +555,8 @@ def finish(acc, tier):
 def replay(case, acc):
     if "optimised_interpreter" in case:
         return check_optimised_interpreter(acc)
+    if "window" in case:
+        return check_window_boundaries(acc)
     text = case["text"]
     if case.get("level") == "L3remove":
         lib = bibtexparser.parse_string(text, parse_stack=[])
